@@ -14,7 +14,7 @@ from sexp import Sym
 PROP = "C45"
 READY = True
 DRIVER = "dm_dfpart"
-LEAN_MODULES = ["DaskModel.Props.C45"]
+LEAN_MODULES = ["DaskModel.Props.C45", "DaskModel.Props.C45xQuantiles"]
 CASE_TIMEOUT_S = 90   # the first case imports dask.dataframe (slow on a loaded machine)
 LEVEL_TEXT = ("Lean 4 theorems, for every sorted sequence and both modes (npartitions/chunksize), about a line-by-line "
               "transliteration of sorted_division_locations: locations strictly increase from 0 to len "
